@@ -69,12 +69,16 @@ func c13MutSdp(r *sim.Rng, sdp string) string {
 		}
 		return idx[r.Intn(len(idx))]
 	}
-	switch r.Intn(16) {
+	sel := r.Intn(20)
+	if sel >= 16 {
+		sel = 0 // clock rates are used as divisors in several places: weight them
+	}
+	switch sel {
 	case 0: // clock rates
 		if i := pick("a=rtpmap"); i >= 0 {
 			f := strings.Split(lines[i], "/")
 			if len(f) >= 2 {
-				f[1] = []string{"0", "1", "999", "1000", "-1", "-90000", "99999999999999999999", "x", ""}[r.Intn(9)]
+				f[1] = []string{"0", "0", "0", "1", "999", "1000", "-1", "-90000", "99999999999999999999", "x", ""}[r.Intn(11)]
 				lines[i] = strings.Join(f, "/")
 			}
 		}
@@ -175,7 +179,7 @@ func c13RtpHostile(r *sim.Rng, pt uint8, kind string, seq uint16) []byte {
 			{0x64, 1, 1}, {0x7e, 1}, {0x40}, {0x40, 1}, {0x26}, {0x26, 1}, {0x42, 1}, {0x44, 1}}[r.Intn(19)]
 		return append(ok, b...)
 	case "aac":
-		b := [][]byte{{}, {0}, {0, 0x10}, {0, 0x10, 0}, {0, 0x10, 0xff, 0xf8}, {0xff, 0xff}, {0xff, 0xff, 1, 2, 3}, {0, 0x20, 0, 8, 0, 8, 1}, {0, 0x20, 0xff, 0xf8, 0xff, 0xf8}, {0, 0x08, 0xff}, {0, 0, 1, 2}, {0x7f, 0xf8, 0, 0}}[r.Intn(12)]
+		b := [][]byte{{}, {0}, {0, 0x10}, {0, 0x10, 0}, {0, 0x10, 0xff, 0xf8}, {0xff, 0xff}, {0xff, 0xff, 1, 2, 3}, {0, 0x20, 0, 8, 0, 8, 1}, {0, 0x20, 0, 8, 0, 8, 0xaa, 0xbb}, {0, 0x30, 0, 8, 0, 8, 0, 8, 1, 2, 3}, {0, 0x20, 0xff, 0xf8, 0xff, 0xf8}, {0, 0x08, 0xff}, {0, 0, 1, 2}, {0x7f, 0xf8, 0, 0}}[r.Intn(14)]
 		return append(ok, b...)
 	}
 	return append(ok, randBytes(r.U64(), r.Intn(40))...)
@@ -338,9 +342,10 @@ func c13ApiBodies(r *sim.Rng, n int) []C13Item {
 	for i := 0; i < n; i++ {
 		p := paths[r.Intn(len(paths))]
 		body := []string{"", "{", "}", "[]", "null", "0", `""`, "{}", `{"stream_name":null}`, `{"stream_name":1}`, `{"stream_name":["a"]}`, `{"stream_name":{"a":1}}`, `{"stream_name":"x","url":"rtmp://"}`, `{"stream_name":"x","url":"://"}`,
-			`{"stream_name":"x","url":"rtsp://10.9.9.8"}`, `{"url":"rtmp://10.9.9.9:1935/live/x","pull_timeout_ms":-1,"pull_retry_num":-5,"auto_stop_pull_after_no_out_ms":-9}`, `{"url":"rtmp://10.9.9.9:1935/live/x","pull_timeout_ms":1e99}`,
+			`{"stream_name":"x","url":"rtsp://10.9.9.8"}`, `{"stream_name":"x","url":"rtmp://10.9.9.9/a?x?y"}`, `{"stream_name":"x","url":"rtmp://10.9.9.9?x?y"}`, `{"stream_name":"x","url":"rtmp://10.9.9.9/live/a?b=c?d=e/f"}`,
+			`{"stream_name":"x","url":"rtmp://10.9.9.9:99999/live/x"}`, `{"stream_name":"x","url":"rtmp://[::1/live/x"}`, `{"stream_name":"x","url":"rtsp://10.9.9.8:554/%zz"}`, `{"stream_name":"x","url":"rtsp://u:p@10.9.9.8:554"}`, `{"stream_name":"x","url":"http://10.9.9.9/live/x.flv"}`, `{"url":"rtmp://10.9.9.9:1935/live/x","pull_timeout_ms":-1,"pull_retry_num":-5,"auto_stop_pull_after_no_out_ms":-9}`, `{"url":"rtmp://10.9.9.9:1935/live/x","pull_timeout_ms":1e99}`,
 			`{"stream_name":"x","session_id":""}`, `{"stream_name":"","session_id":"RTMPPUBSUB1"}`, `{"stream_name":"by","session_id":"nosuch"}`, `{"stream_name":"x","port":-1,"timeout_ms":-1,"is_tcp_flag":7}`, `{"stream_name":"x","port":99999}`, `{"stream_name":"x","port":"a"}`,
-			`{"ip":"","duration_sec":-1}`, `{"ip":"not an ip","duration_sec":99999999999}`, `{"ip":1}`, `{"stream_name":"` + strings.Repeat("s", 70000) + `"}`, strings.Repeat("[", 20000), `{"a":` + strings.Repeat("{\"a\":", 5000) + "1" + strings.Repeat("}", 5000) + "}", "\xff\xfe\x00"}[r.Intn(30)]
+			`{"ip":"","duration_sec":-1}`, `{"ip":"not an ip","duration_sec":99999999999}`, `{"ip":1}`, `{"stream_name":"` + strings.Repeat("s", 70000) + `"}`, strings.Repeat("[", 20000), `{"a":` + strings.Repeat("{\"a\":", 5000) + "1" + strings.Repeat("}", 5000) + "}", "\xff\xfe\x00"}[r.Intn(38)]
 		q := []string{"", "?stream_name=", "?stream_name=by", "?stream_name=%zz", "?x=" + strings.Repeat("q", 9000), "?stream_name=a&stream_name=b"}[r.Intn(6)]
 		out = append(out, C13Item{Kind: "api", S: p + q, N: r.Intn(3), Shape: len(body), Seed: r.U64()})
 		out[len(out)-1].S += "\n" + body
